@@ -345,6 +345,10 @@ class C16(Prop):
                 # input the property quantifies over
                 stats['field-named-underscore'] += 1
                 continue
+            if re.search(r'^[^({]*[<,] (const )?_ [>,:=]', it):
+                # a generic PARAMETER named `_` (`enum X<_> { .. }`): accepted by syn, refused by rustc for the same reason
+                stats['parameter-named-underscore'] += 1
+                continue
             end = next((p for p in parts if p[0] == 'END'), None)
             bad = None
             if any(p[0] == 'PANIC' for p in parts):
